@@ -5,6 +5,8 @@ mod record;
 mod refimpl;
 mod replay;
 mod replay_codec;
+mod replay_det;
+mod rngdrv;
 
 use refimpl::Ref;
 
@@ -79,6 +81,52 @@ fn main() {
             let out = serde_json::json!({"cases": rep.cases, "checks": rep.checks, "mismatches": rep.mismatches, "samples": rep.samples, "skipped": rep.skipped});
             std::fs::write(&args[3], serde_json::to_string_pretty(&out).unwrap()).unwrap();
             println!("replayed codec cases={} mismatches={}", rep.cases, rep.mismatches.len());
+            std::process::exit(0);
+        }
+        "replay-det" => {
+            // zkv replay-det <cases.ndjson> <report.json> [--threads N]
+            let r = Ref::load(&layouts);
+            libapi::install_quiet_panic_hook();
+            let text = std::fs::read_to_string(&args[2]).expect("cases file");
+            let cases: Vec<serde_json::Value> = text.lines().filter(|l| !l.trim().is_empty()).map(|l| serde_json::from_str(l).expect("case line")).collect();
+            let seed: u64 = std::env::var("VERIF_SEED").ok().and_then(|s| s.parse().ok()).unwrap_or(1);
+            let mut threads = 16usize;
+            let mut i = 4;
+            while i < args.len() {
+                match args[i].as_str() {
+                    "--threads" => { threads = args[i + 1].parse().unwrap(); i += 2; }
+                    _ => usage(),
+                }
+            }
+            let rep = replay_det::run(&r, &cases, seed, threads);
+            let out = serde_json::json!({"cases": rep.cases, "checks": rep.checks, "mismatches": rep.mismatches, "samples": rep.samples});
+            std::fs::write(&args[3], serde_json::to_string_pretty(&out).unwrap()).unwrap();
+            println!("replayed det cases={} mismatches={}", rep.cases, rep.mismatches.len());
+            std::process::exit(0);
+        }
+        "rng" => {
+            // zkv rng <trace.ndjson> --proc P --threads T --iters N
+            let r = Ref::load(&layouts);
+            libapi::install_quiet_panic_hook();
+            let seed: u64 = std::env::var("VERIF_SEED").ok().and_then(|s| s.parse().ok()).unwrap_or(1);
+            let (mut proc_id, mut threads, mut iters) = (0u64, 1usize, 16usize);
+            let mut i = 3;
+            while i < args.len() {
+                match args[i].as_str() {
+                    "--proc" => { proc_id = args[i + 1].parse().unwrap(); i += 2; }
+                    "--threads" => { threads = args[i + 1].parse().unwrap(); i += 2; }
+                    "--iters" => { iters = args[i + 1].parse().unwrap(); i += 2; }
+                    _ => usage(),
+                }
+            }
+            let evs = rngdrv::run(&r, proc_id, threads, iters, seed);
+            let mut out = String::new();
+            for e in &evs {
+                out.push_str(&serde_json::to_string(e).unwrap());
+                out.push('\n');
+            }
+            std::fs::write(&args[2], out).unwrap();
+            println!("recorded rng events={}", evs.len());
             std::process::exit(0);
         }
         "record" => {
